@@ -8,5 +8,7 @@ CONSTANTS
   GuardFix = TRUE
   CleanupFix = FALSE
   SerialReg = FALSE
+  MaxBatch = 0
+  RetryEnds = TRUE
   Depth = 34
 CHECK_DEADLOCK FALSE
